@@ -12,7 +12,6 @@ code -> spec : what the real code returned - for sigma_clip the whole iteration,
 Python never judges a result: it maps abstract <-> concrete, projects observed floats onto
 lattice rationals (vh.ratproj) and records.
 """
-import itertools
 import random
 import warnings
 from fractions import Fraction as Fr
@@ -35,10 +34,10 @@ CONC = [
 NITER = 4
 
 BOUNDS = {
-    "quick": dict(MinLen=1, MaxLen=3, Vals=set(range(0, 5)), Wts={0, 1, 2, 8}, MaxW=32, MuNone=True,
-                  N2Max=2, Vals2={0, 1, 4}, Wts2={0, 1, 2},
-                  ClipMaxLen=4, ClipMaxLenW=3, ClipVals={0, 1, 2, 3, 6}, ClipWts={1, 8}, NSigIdx={1, 2, 4, 5}, ClipNiter=NITER,
-                  TabX=set(range(0, 5)), TabV=set(range(0, 5)), TabMax=4,
+    "quick": dict(MinLen=1, MaxLen=3, Vals={0, 1, 3, 4}, Wts={0, 1, 2, 8}, MaxW=32, MuNone=True,
+                  N2Max=2, Vals2={0, 3}, Wts2={0, 1, 2},
+                  ClipMaxLen=4, ClipMaxLenW=3, ClipVals={0, 1, 2, 3, 6}, ClipWts={1, 8}, NSigIdx={1, 2, 4}, ClipNiter=NITER,
+                  TabX=set(range(0, 5)), TabV={0, 1, 4}, TabMax=4,
                   CovMaxN=2, CovDiag={1, 2, 4, 9}, CovOffN=6, CovShift=3, DefMaxW=12),
     "thorough": dict(MinLen=1, MaxLen=4, Vals=set(range(0, 5)), Wts={0, 1, 2, 8}, MaxW=32, MuNone=True,
                      N2Max=3, Vals2={0, 1, 4}, Wts2={0, 1, 2},
@@ -88,8 +87,8 @@ class Frame:
         self.arrs = [a for a in arrs if isinstance(a, np.ndarray)]
         self.before = [a.tobytes() for a in self.arrs]
 
-    def ok(self):
-        return all(a.tobytes() == b for a, b in zip(self.arrs, self.before))
+    def problems(self):
+        return [] if all(a.tobytes() == b for a, b in zip(self.arrs, self.before)) else ["argument_modified"]
 
 
 def call(fn, *a, **kw):
@@ -117,7 +116,7 @@ def ex_wmom(c, ps, k):
     for wc in c["w"]:
         need_den(sum(wc) ** 4, "wmom total weight")
     fr = Frame(x, w)
-    runs = []
+    runs, problems = [], []
     for p in ps:
         kw = dict(calcerr=bool(p["calcerr"]), sdev=bool(p["sdev"]))
         if p["hasmu"]:
@@ -138,7 +137,15 @@ def ex_wmom(c, ps, k):
             o = {"err": type(e).__name__, "mean": [], "err2": [], "var": []}
             raw = {"exc": repr(e)}
         runs.append({"p": p, "o": o, "raw": raw})
-    return runs, fr.ok()
+        # sdev=False returns the first two outputs of sdev=True (relation between two outputs: compared directly)
+        if p["sdev"] and o["err"] == "none":
+            try:
+                r2 = call(su.wmom, x, w, **dict(kw, sdev=False))
+                if len(r2) != 2 or not all(np.array_equal(np.asarray(a), np.asarray(b)) for a, b in zip(r2, res[:2])):
+                    problems.append("sdev_variants_differ")
+            except Exception:  # noqa
+                problems.append("sdev_variants_differ")
+    return runs, problems + fr.problems()
 
 
 def ex_wmedian(c, ps, k):
@@ -154,7 +161,7 @@ def ex_wmedian(c, ps, k):
     except Exception as e:  # noqa
         o = {"err": type(e).__name__, "val": real(float("nan"), 1)}
         raw = {"exc": repr(e)}
-    return [{"p": ps[0], "o": o, "raw": raw}], fr.ok()
+    return [{"p": ps[0], "o": o, "raw": raw}], fr.problems()
 
 
 def _clip_out(res, c, k):
@@ -207,7 +214,7 @@ def ex_clip(c, ps, k):
             exp = [full[0], full[1]] + ([full[2]] if ge else []) + ([full[3]] if gi else [])
             if len(r) != len(exp) or not all(np.array_equal(np.asarray(a), np.asarray(b)) for a, b in zip(r, exp)):
                 flags_ok = False
-    return runs, fr.ok() and flags_ok
+    return runs, fr.problems() + ([] if flags_ok else ["flag_variants_differ"])
 
 
 def ex_interp(c, ps, k):
@@ -230,7 +237,7 @@ def ex_interp(c, ps, k):
     except Exception as e:  # noqa
         o = {"err": type(e).__name__, "vals": []}
         raw = {"exc": repr(e)}
-    return [{"p": ps[0], "o": o, "raw": raw}], fr.ok()
+    return [{"p": ps[0], "o": o, "raw": raw}], fr.problems()
 
 
 def ex_gstats(c, ps, k):
@@ -267,7 +274,7 @@ def ex_gstats(c, ps, k):
             o = {"err": type(e).__name__, "mean": [], "var": [], "err2": [], "err2i": [], "min": [], "max": []}
             raw = {"exc": repr(e)}
         runs.append({"p": p, "o": o, "raw": raw})
-    return runs, fr.ok()
+    return runs, fr.problems()
 
 
 def ex_cov(c, ps, k):
@@ -283,13 +290,13 @@ def ex_cov(c, ps, k):
         back = call(su.cor2cov, cor, np.sqrt(np.diag(m).astype("f8")))
         corl = [[float(cor[i][j]) for j in range(cor.shape[1])] for i in range(cor.shape[0])]
         o = {"err": "none",
-             "cor": [[dict(real(v, max(1.0, v * v if v == v else 1.0), square=True), s=(v > 0) - (v < 0)) for v in row] for row in corl],
+             "cor": [[dict(real(abs(v), max(1.0, v * v if v == v else 1.0), square=True), s=(v > 0) - (v < 0)) for v in row] for row in corl],
              "back": [[real(back[i][j], big, div=u2) for j in range(back.shape[1])] for i in range(back.shape[0])]}
         raw = {"cor": corl, "back": np.asarray(back, dtype=float).tolist()}
     except Exception as e:  # noqa
         o = {"err": type(e).__name__, "cor": [], "back": []}
         raw = {"exc": repr(e)}
-    return [{"p": ps[0], "o": o, "raw": raw}], fr.ok()
+    return [{"p": ps[0], "o": o, "raw": raw}], fr.problems()
 
 
 EXEC = {"wmom": ex_wmom, "wmedian": ex_wmedian, "clip": ex_clip, "interp": ex_interp, "gstats": ex_gstats, "cov": ex_cov}
@@ -298,17 +305,18 @@ EXEC = {"wmom": ex_wmom, "wmedian": ex_wmedian, "clip": ex_clip, "interp": ex_in
 def execute(job):
     """job = (id, op, c, ps, conc) -> record"""
     i, op, c, ps, k = job
-    runs, frame_ok = EXEC[op](c, ps, k)
-    return {"id": i, "op": op, "c": c, "ps": ps, "conc": k, "runs": runs, "frame_ok": frame_ok}
+    runs, problems = EXEC[op](c, ps, k)
+    return {"id": i, "op": op, "c": c, "ps": ps, "conc": k, "runs": runs, "problems": problems}
 
 
 # ---- exported case -> jobs -------------------------------------------------------------------------
 def wmom_params(mus):
+    """calcerr x inputmean with sdev=True (the sdev=False call is compared with it directly)"""
     out = []
-    for calcerr, sdev in itertools.product((False, True), (False, True)):
-        out.append({"calcerr": calcerr, "sdev": sdev, "hasmu": False, "mu": [0, 1]})
+    for calcerr in (False, True):
+        out.append({"calcerr": calcerr, "sdev": True, "hasmu": False, "mu": [0, 1]})
         for mu in mus:
-            out.append({"calcerr": calcerr, "sdev": sdev, "hasmu": True, "mu": list(mu)})
+            out.append({"calcerr": calcerr, "sdev": True, "hasmu": True, "mu": list(mu)})
     return out
 
 
@@ -327,9 +335,9 @@ def jobs_of(case, opts, k):
     if op == "cl":
         c = {kk: case[kk] for kk in ("x", "w", "hasw", "nsn", "nsd")}
         nit = case["niter"]
-        out = [("clip", c, [{"niter": it} for it in sorted({0, 1, 2, nit})])]
+        out = [("clip", c, [{"niter": it} for it in sorted({1, nit})])]
         out.append(("gstats", {"x": [case["x"]], "w": [case["w"]], "hasw": case["hasw"], "nsn": case["nsn"], "nsd": case["nsd"]},
-                    [{"mode": "clip", "calcerr": True, "niter": nit}, {"mode": "clip", "calcerr": True, "niter": 1}]))
+                    [{"mode": "clip", "calcerr": True, "niter": nit}]))
         return out
     if op == "ip":
         return [("interp", {"xs": case["xs"], "vs": case["vs"], "us": case["us"]}, [{"v": 1}])]
@@ -373,9 +381,9 @@ def judge(ctx, recs, what):
                           "esutil.stat.%s result not allowed by Stats.tla: clause %s" % (ENTRY[r["op"]], clause),
                           {"op": r["op"], "c": r["c"], "ps": [u["p"]], "conc": r["conc"], "observed": u["o"], "raw": u["raw"]})
     for r in recs:
-        if not r["frame_ok"]:
-            ctx.violation("%s|argument_modified_or_flag_variants_differ" % ENTRY[r["op"]],
-                          "call modified an array argument / optional outputs differ between flag settings",
+        for pb in sorted(set(r["problems"])):
+            ctx.violation("%s|%s" % (ENTRY[r["op"]], pb),
+                          "call modified an array argument / optional outputs differ between flag settings (%s)" % pb,
                           {"op": r["op"], "c": r["c"], "ps": r["ps"], "conc": r["conc"]})
     return rejects
 
